@@ -223,3 +223,140 @@ func VerifC09_PolicyJSONComposition() {
 	want := append(append(append([]byte{}, c1...), ','), c2...)
 	vrt.Assert("C09.policyjson.clauses-compose", bytes.Contains(full, want))
 }
+
+// Byte level: Policy.MarshalJSON -> bytes -> Policy.UnmarshalJSON through the
+// executor's model of encoding/json (struct tags, omitempty, the unknown-key =
+// extension-call rule of nodeJSON.UnmarshalJSON with DisallowUnknownFields, the
+// policy envelope) yields the identical policy, the same Cedar text, the same
+// evaluation and byte-identical JSON on the second trip.
+func VerifC09_PolicyBytes() {
+	eval.VGenDigitPayloads(true)
+	p := &Policy{Effect: ast.EffectPermit, Principal: ast.ScopeTypeAll{}, Action: ast.ScopeTypeAll{}, Resource: ast.ScopeTypeAll{}}
+	if vrt.Choice("effect", 2) == 1 {
+		p.Effect = ast.EffectForbid
+	}
+	e, e2 := types.NewEntityUID("NS::T", "e"), types.NewEntityUID("T", "f")
+	var body ast.Node
+	switch vrt.Choice("vary", 5) {
+	case 0: // annotations (a symbolic rune in the value; keys sorted / duplicate-free)
+		r := vrt.Rune("annotation-rune")
+		if vrt.Thorough() {
+			vrt.Assume(vrt.And(r >= 0, r <= 0x10FFFF))
+			vrt.Assume(vrt.Or(r < 0xD800, r > 0xDFFF))
+		} else {
+			vrt.Assume(vrt.And(r >= 0, r < 0x80))
+		}
+		p.Annotations = []ast.AnnotationType{{Key: "id", Value: types.String("v" + string(r))}, {Key: "b", Value: ""}}
+		body = ast.True()
+	case 1: // scopes
+		switch vrt.Choice("scope", 7) {
+		case 0:
+			p.Principal = ast.ScopeTypeEq{Entity: e}
+		case 1:
+			p.Principal = ast.ScopeTypeIn{Entity: e}
+		case 2:
+			p.Resource = ast.ScopeTypeIs{Type: "NS::T"}
+		case 3:
+			p.Resource = ast.ScopeTypeIsIn{Type: "NS::T", Entity: e2}
+		case 4:
+			p.Action = ast.ScopeTypeInSet{Entities: []types.EntityUID{e, e2}}
+		case 5:
+			p.Action = ast.ScopeTypeEq{Entity: e}
+		case 6:
+			p.Action = ast.ScopeTypeIn{Entity: e2}
+		}
+		body = ast.True()
+	case 2: // unary operators
+		x, _ := eval.VGenLeaf("x", c09Leaves)
+		body = eval.VGenUnary(vrt.Choice("op", eval.VUnaryCount), x)
+	case 3: // binary operators
+		leaves := c09Leaves
+		if !vrt.Thorough() {
+			leaves = []int{eval.VLeafLong, eval.VLeafCtxK, eval.VLeafEntity, eval.VLeafNegLong}
+		}
+		l, _ := eval.VGenLeaf("l", leaves)
+		r, _ := eval.VGenLeaf("r", leaves)
+		body = eval.VGenBinary(vrt.Choice("op", eval.VOpBinaryCount), l, r)
+	case 4: // node kinds with their own JSON shape
+		a, b, c := ast.Long(1), ast.String("two"), ast.Context().Access("k")
+		switch vrt.Choice("kind", 11) {
+		case 0:
+			body = b.Like(types.NewPattern(types.String("a*"), types.Wildcard{}, types.String("\\"), types.Wildcard{}))
+		case 1:
+			body = ast.Principal().Is("NS::T")
+		case 2:
+			body = ast.Principal().IsIn("NS::T", ast.Resource())
+		case 3:
+			body = ast.IfThenElse(c, a, b)
+		case 4:
+			body = ast.ExtensionCall("decimal", b)
+		case 5:
+			body = ast.ExtensionCall("lessThan", ast.ExtensionCall("decimal", b), ast.ExtensionCall("decimal", ast.String("1.0")))
+		case 6:
+			body = ast.Record(ast.Pairs{{Key: "x", Value: a}, {Key: "y z", Value: b}})
+		case 7:
+			body = ast.Set(ast.Set(a), ast.Set(), b)
+		case 8:
+			body = c.GetTag(b).HasTag(ast.String("t"))
+		case 9:
+			body = ast.Context().Has("a b").And(ast.Context().Access("a b").Equal(a))
+		case 10:
+			body = ast.ExtensionCall("isInRange", ast.ExtensionCall("ip", ast.String("1.2.3.4")), ast.ExtensionCall("ip", ast.String("1.0.0.0/8")))
+		}
+	}
+	var kind ast.Condition = ast.ConditionWhen
+	if vrt.Choice("unless", 2) == 1 {
+		kind = ast.ConditionUnless
+	}
+	p.Conditions = []ast.ConditionType{{Condition: kind, Body: body.AsIsNode()}}
+	b1, err := p.MarshalJSON()
+	vrt.Assert("C09.bytes.encodes", err == nil)
+	var q Policy
+	err = q.UnmarshalJSON(b1)
+	vrt.Cover("C09.bytes.checked")
+	vrt.Assert("C09.bytes.decodes", err == nil)
+	vrt.Assert("C09.bytes.effect", q.Effect == p.Effect)
+	vrt.Assert("C09.bytes.annotation-count", len(q.Annotations) == len(p.Annotations))
+	for _, want := range p.Annotations {
+		found := false
+		for _, got := range q.Annotations {
+			if got.Key == want.Key && got.Value == want.Value {
+				found = true
+			}
+		}
+		vrt.Assert("C09.bytes.annotation", found)
+	}
+	sameScope := func(x, y ast.IsScopeNode) bool {
+		xs, ok1 := x.(ast.ScopeTypeInSet)
+		ys, ok2 := y.(ast.ScopeTypeInSet)
+		if ok1 || ok2 {
+			if !ok1 || !ok2 || len(xs.Entities) != len(ys.Entities) {
+				return false
+			}
+			for i := range xs.Entities {
+				if xs.Entities[i] != ys.Entities[i] {
+					return false
+				}
+			}
+			return true
+		}
+		return x == y
+	}
+	vrt.Assert("C09.bytes.principal", sameScope(q.Principal, p.Principal))
+	vrt.Assert("C09.bytes.action", sameScope(q.Action, p.Action))
+	vrt.Assert("C09.bytes.resource", sameScope(q.Resource, p.Resource))
+	vrt.Assert("C09.bytes.condition-count", len(q.Conditions) == 1)
+	vrt.Assert("C09.bytes.condition-kind", q.Conditions[0].Condition == kind)
+	back := q.Conditions[0].Body
+	if _, isRec := body.AsIsNode().(ast.NodeTypeRecord); !isRec && !c09HasExtLiteral(body.AsIsNode()) {
+		vrt.Assert("C09.bytes.identical-ast", parser.VEqNode(body.AsIsNode(), back))
+	}
+	vrt.Assert("C09.bytes.same-text", vrt.EqString(parser.MarshalExpr(body.AsIsNode()), parser.MarshalExpr(back)))
+	g := eval.VGenMkEnv()
+	v1, e1 := eval.ToEval(body.AsIsNode()).Eval(g.Env())
+	v2, e2x := eval.ToEval(back).Eval(g.Env())
+	vrt.Assert("C09.bytes.same-outcome", eval.VSameOutcome(v1, e1, v2, e2x))
+	b2, err := q.MarshalJSON()
+	vrt.Assert("C09.bytes.encodes-again", err == nil)
+	vrt.Assert("C09.bytes.stable", vrt.EqBytes(b1, b2))
+}
